@@ -14,7 +14,7 @@ append as kills) or sit lexically inside a try whose handler catches the implied
 import ast
 import struct
 
-from .model import norm, walk_no_nested, ancestors, enclosing_stmt
+from .model import norm, walk_no_nested, ancestors, enclosing_stmt, head
 from .cfg import cfg_of
 from .q import try_const, lower_bound_at, cfg_node_for, match
 
@@ -571,6 +571,9 @@ def check(report, prog, func, var, rule, what_source, base=0, sources=None, coll
     extra = extra_guards(cfg, var, prog, func)
     states, pops = minlen_states(cfg, var, extra, sources, base)
     rs = reads_of(func, var)
+    texts = [w for _, _, w, _ in rs]
+    rs = [(node, need, (what if texts.count(what) == 1 else '%s in `%s`' % (what, head(enclosing_stmt(node)).rstrip(':'))), excs)
+          for node, need, what, excs in rs]
     for node, need, what, excs in rs:
         k = key(func.qname, '%s is long enough for' % var, what)
         if handled(node, func, excs):
@@ -605,7 +608,7 @@ def check(report, prog, func, var, rule, what_source, base=0, sources=None, coll
         have = states.get(target)
         if have is None:
             have = 0        # unreachable in the CFG: be conservative
-        if what.endswith('.pop(0)') or what.endswith('.pop()'):
+        if '.pop(0)' in what or '.pop()' in what:
             need = max(need, pops.get(target, 1))      # the k-th pop in one statement needs k elements
         have = max(have, ifexp_bound(node, var))
         # a pop in the same node executed before this read shifts nothing we can use: be exact for the single-read case only
